@@ -143,12 +143,12 @@ func (s *sx) exec(f *frame, in ssa.Instruction) {
 					if v.L.isConst() {
 						f.vals[x] = svInt(linC(v.L.C & 0xff))
 					} else {
-						f.vals[x] = SV{K: kInt, L: linA("byte(" + v.L.String() + ")")}
+						f.vals[x] = SV{K: kInt, L: defAtom("byte("+v.L.String()+")", "byte", 0, v.L)}
 					}
 					return
 				}
 				if bt.Kind() == types.Uint16 && !v.L.isConst() {
-					f.vals[x] = SV{K: kInt, L: linA("u16(" + v.L.String() + ")")}
+					f.vals[x] = SV{K: kInt, L: defAtom("u16("+v.L.String()+")", "u16", 0, v.L)}
 					return
 				}
 				s.note("integer conversions between int/uint32/uint64 are assumed not to overflow")
@@ -299,7 +299,7 @@ func (s *sx) unop(f *frame, x *ssa.UnOp) SV {
 		if v.K == kInt && v.L.isConst() {
 			return svInt(linC(^v.L.C))
 		}
-		return SV{K: kInt, L: linA("^(" + v.L.String() + ")")}
+		return SV{K: kInt, L: defAtom("^("+v.L.String()+")", "^", 0, v.L)}
 	case token.MUL:
 		switch v.K {
 		case kCell:
@@ -447,7 +447,7 @@ func (s *sx) binop(f *frame, x *ssa.BinOp) SV {
 		}
 	}
 	// opaque but canonical: equal expressions give equal atoms
-	return SV{K: kInt, L: linA("(" + a.L.String() + x.Op.String() + b.L.String() + ")")}
+	return SV{K: kInt, L: defAtom("("+a.L.String()+x.Op.String()+b.L.String()+")", x.Op.String(), 0, a.L, b.L)}
 }
 
 func (s *sx) slice(f *frame, x *ssa.Slice) SV {
